@@ -16,7 +16,7 @@ EXPLANATION = (
     "replaces the document; (R5) the rename handler cannot panic on a binder kind the resolver produces (shared with "
     "C18); (R6) DOC-SYNC - didOpen overwrites the tracked text, didClose forgets it, and every text read from disk is "
     "tracked so that its diagnostics are reset. Equality with a fresh server over all histories is not decided.")
-EXPLANATION += ' Further clauses: every entry of the diagnostics map is published (R2); Workspace.errors is emptied only by diagnostics() (R3); the changes of one notification are applied in the order sent, each bound an unmodified conversion against the current text (R4); (R7) CLAMP (shared C16.R3). R3 also requires every Ok return of diagnostics() to carry the map seeded from docs and that map to be only added to; (R8) HANDLER-NO-REJECT (shared C18.R7).'
+EXPLANATION += ' Further clauses: every entry of the diagnostics map is published (R2); Workspace.errors is emptied only by diagnostics() (R3); the changes of one notification are applied in the order sent, each bound an unmodified conversion against the current text (R4); (R7) CLAMP (shared C16.R3). R3 also requires every Ok return of diagnostics() to carry the map seeded from docs and that map to be only added to; (R8) HANDLER-NO-REJECT (shared C18.R7). R6 also requires a closed document to be cleared; (R9) LOADER-TEXT (shared C11.R1).'
 TECHNIQUE = "static analysis: MIR must-pass-through rules on the LSP event loop + units inference"
 
 MUTATORS = ('Workspace::open', 'Workspace::close', 'Workspace::change')
@@ -404,6 +404,29 @@ def r6_doc_sync(c, facts):
         c.ok(R, {'Workspace::close': 'docs.remove(loc): the next load reads the saved file'})
     else:
         c.bad(R, 'close-does-not-forget', 'Workspace::close no longer removes the document: the closed (unsaved) buffer keeps shadowing the file on disk')
+    # "diagnostics are reset on all previously opened documents" (comment of diagnostics()): the reset runs over `docs`, so
+    # a document that leaves `docs` by didClose must get its empty list some other way
+    closers = [f for f in facts.fns.values() if f.mir and f.crate in ('oal_lsp', 'oal_client') and f.id != cl.id and P.call_blocks(f, 'Workspace::close')]
+    remembers = False
+    for b, blk in cl.blocks():
+        for st in blk['stmts']:
+            if st['s'] == 'assign' and st['place']['proj'] and [x for x in MF.field_path(st['place']) if x not in ('docs',)][:1] not in ([], ['docs']) and st['place']['l'] == 1:
+                remembers = True
+    for b, t in cl.calls():
+        a0 = t['args'][0] if t['args'] else None
+        if a0 and 'l' in a0:
+            for kind, bi, x in MF.defs_index(cl).get(a0['l'], []):
+                if kind == 'assign' and x['rv']['r'] == 'ref' and x['rv']['place']['l'] == 1:
+                    fp = MF.field_path(x['rv']['place'])
+                    info = callee_of(t)
+                    if fp and fp[0] != 'docs' and info and P.strip(info['def']).split('::')[-1] in ('push', 'insert', 'extend', 'push_back'):
+                        remembers = True
+    publishes = closers and all(P.call_blocks(f, 'Sender::send') or P.call_blocks(f, 'Sender<T>::send') or any('send' == P.strip(callee_of(t)['def']).split('::')[-1] for b, t in f.calls() if callee_of(t)) for f in closers)
+    c.floor(R, 'didClose handlers', len(closers), 1)
+    if remembers or publishes:
+        c.ok(R, {'didClose': 'the closed document is cleared (%s)' % ('remembered for the next reset' if remembers else 'an empty list is published by the handler')})
+    else:
+        c.bad(R, 'closed-document-never-cleared', 'a document removed from `docs` by didClose is neither remembered for the next diagnostics reset nor cleared by the handler: if it is no longer loaded afterwards its last diagnostics stay in the editor for ever')
     rf = c.anchor(R, 'oal_client::lsp::Workspace::read_file')
     fs = P.call_blocks(rf, 'FileSystem::read_file')
     stores = [b for b, t in P.call_blocks(rf, 'VacantEntry::insert', 'HashMap::insert', 'Entry::or_insert', 'Entry::or_insert_with', 'VacantEntry::<\'a, K, V>::insert')]
